@@ -6,6 +6,7 @@ spec/FreeForm.tla (generator of logical content x layouts), spec/FreeForm_Trace.
 """
 from __future__ import annotations
 import glob
+import json
 import os
 import random
 import re
@@ -249,6 +250,27 @@ def run(tier, seed, ck: Check):
                 ck.count()
             ck.violation("reader-vs-lexical-rules", case, expected=m.get("expected"), observed=m["yields"], detail=detail)
         ck.coverage["model_drift_traces"] = drift
+        # ---- 5. the trace spec is bound to what was recorded: one corrupted field -> that trace rejected
+        vd = {v["id"]: v for v in verdicts}
+        good = [r for r in recs if vd[r["id"]]["ref"] == 0 and vd[r["id"]]["impl"] == 0 and r["yields"]]
+        pick = good[:: max(1, len(good) // 30)][:30]
+        corrupted = []
+        for k_, r in enumerate(pick):
+            r2 = json.loads(json.dumps(r))
+            r2["id"] = f"corrupt:{k_}"
+            if k_ % 3 == 0:
+                r2["yields"] = r2["yields"][:-1]                       # one yielded item lost
+            elif k_ % 3 == 1:
+                r2["yields"][0] = ["q"] + r2["yields"][0]              # one character more in a yielded item
+            else:
+                r2["yields"] = r2["yields"] + [r2["yields"][-1]]       # one item yielded twice
+            corrupted.append(r2)
+        if corrupted:
+            cv, _ = rb.validate_traces(corrupted, MARKS, AS_BUILT_DEV)
+            accepted = [v["id"] for v in cv if v["ref"] == 0 or v["impl"] == 0]
+            if accepted:
+                raise tlc.TLCFailure(f"trace spec accepted corrupted records {accepted}: FreeForm_Trace does not bind")
+            ck.coverage["corrupted_traces_rejected"] = len(cv)
         ck.assumptions += [
             "generated files are valid free-form Fortran: no line holds a lone '&', character context is continued only with a leading '&', pre-docs stand on their own lines and are not combined with ';'",
             "empty documentation lines carry no text and are ignored on both sides",
